@@ -1367,6 +1367,11 @@ def ac13_independent_inputs(model: Model, fc: FnCls, R: RuleResult) -> int:
             return True
         if isinstance(e, ast.Starred):
             return fresh(e.value, fi, depth + 1, seen)
+        if isinstance(e, ast.IfExp):
+            # either arm may be taken: fresh only if both are
+            return combine([fresh(e.body, fi, depth + 1, set(seen)), fresh(e.orelse, fi, depth + 1, set(seen))])
+        if isinstance(e, ast.BoolOp):
+            return combine([fresh(v, fi, depth + 1, set(seen)) for v in e.values])
         if isinstance(e, (ast.List, ast.Tuple)):
             return combine([fresh(x, fi, depth + 1, seen) for x in e.elts]) if e.elts else True
         if isinstance(e, ast.BinOp) and isinstance(e.op, ast.Add):
